@@ -100,7 +100,7 @@ def reference_run(dom, world, init, plan, k3_active):
                 out.append(rec)
                 continue
             st = rec.get("post_model", rec["post"])
-            if any(abs(v) > 10 ** 9 for v in st[1].values()):
+            if pddl.beyond_float(st):
                 # exact rationals keep growing where floats lose precision / overflow: not judged beyond this point
                 rec["why"] = rec["why"] or "Magnitude"
                 dead = True
